@@ -845,6 +845,62 @@ def consumer_drop(ctx, rule):
     ctx.floor(rule, n, 1, what="paths of the consumer's Drop")
 
 
+def drop_always_announces(ctx, rule):
+    """C10.R4.drop: every way out of the producer's Drop - whatever it tested first (a flag of its own, `thread::panicking()`,
+    an empty buffer) - has looked at the shared state under the lock, and when it found it live it left the
+    producer-finished flag set: a consumer parked on the empty queue learns that no more data will come"""
+    R = roles(ctx)
+    _, outs = flush_rows(ctx, True)
+    n = 0
+    for o in outs:
+        if o.kind != "return":
+            continue
+        n += 1
+        pi = publish_info(ctx, R, o)
+        if pi["root"] is None:
+            conds = [fmt_term(k)[:70] + "=" + str(v) for k, v in o.cons.known.items()]
+            ctx.violation(rule, rule + "|no-lock", "a path of the producer's Drop (%s) never touches the shared state: the consumer is not told that the producer is "
+                          "gone and waits for ever" % ("; ".join(conds[:3]) or "unconditional"), where=_w(o))
+            continue
+        if pi.get("entry") == R["live"] and pi.get("final_variant") == R["live"]:
+            if pi.get("dropped_after") != const(1):
+                ctx.violation(rule, rule + "|flag", "a path of the producer's Drop leaves a live shared state with the producer-finished flag %s" %
+                              short(pi.get("dropped_after"), 40), where=_w(o))
+                continue
+        ctx.ok(rule, "Drop path: shared state visited under the lock (%s -> %s)" % (pi.get("entry") or "non-live", pi.get("final_variant") or "unchanged"))
+    ctx.floor(rule, n, 2, what="return paths of the producer's Drop")
+
+
+def writer_never_resurrects(ctx, rule):
+    """C20.R1.writer: no producer-side entry point (flush, Drop, abort) turns a terminated shared state (error pending or
+    delivered, consumer finished) back into a live one: what the reader reported as the end stays the end whatever the
+    writer does afterwards"""
+    R = roles(ctx)
+    n = 0
+    for what, outs in (("flush", flush_rows(ctx, False)[1]), ("drop", flush_rows(ctx, True)[1]),
+                       ("abort", ctx.px(R["abort"], inline=lambda c, d: True, key="all"))):
+        for o in outs:
+            if o.kind != "return":
+                continue
+            pi = publish_info(ctx, R, o)
+            if pi["root"] is None:
+                continue
+            ent, fv = pi.get("entry"), pi.get("final_variant")
+            if ent is None and R["live"] in o.cons.notvariant.get(pi["st0"], ()):
+                ent = "non-live"        # the catch-all arm of a test for the live variant
+            if ent is None or ent == R["live"]:
+                continue
+            if fv is None and pi["final_state"] == pi["st0"]:
+                fv = "non-live"         # left as found
+            n += 1
+            if fv == R["live"] or fv is None:
+                ctx.violation(rule, "%s|%s|%s" % (rule, what, ent), "%s entered with the shared state %s (terminated) leaves it %s: a body that reported its error or "
+                              "end can yield data again" % (what, ent, "live" if fv else "undetermined"), where=_w(o))
+            else:
+                ctx.ok(rule, "%s: %s stays non-live (%s)" % (what, ent, fv))
+    ctx.floor(rule, n, 3, what="producer rows entered with a terminated state")
+
+
 def flush_reports_gone_consumer(ctx, rule):
     """C11.R6: flush (not drop) returns Ok only after observing under the lock that the state is live"""
     R = roles(ctx)
